@@ -199,6 +199,9 @@ M('C20', 'alloc-arm-unreachable', MOD, '            ALLOC_CHANNEL => match &stat
   '            ALLOC_CHANNEL => match &state {\n                ConnectionState::Steady(ch0_slot) => {\n                    self.inner.allocate_channel(ch0_slot, &self.poll)?\n                }\n                ConnectionState::ServerClosing(_)\n                | ConnectionState::ClientException\n                | ConnectionState::ClientClosed => unreachable!(),', 'R20.')
 M('C20', 'stale-channel-wakeup-panics', MOD, '                    // the channel handle.\n                    return Ok(());', '                    // the channel handle.\n                    unreachable!("slot must exist");', 'R20.')
 M('C20', 'is-done-inside-batch', MOD, '            for event in events.iter() {\n                handle_event(self, stream, state, event)?;\n            }', '            for event in events.iter() {\n                handle_event(self, stream, state, event)?;\n                if is_done(self, state) {\n                    return Ok(());\n                }\n            }', 'R20.3')
+R('C11', 'revert-D12-caller-released-before-terminal-message', "fix: post terminal consumer messages before releasing the channel's caller", 'R11.7')
+R('C09', 'revert-D12-caller-released-before-terminal-message', "fix: post terminal consumer messages before releasing the channel's caller", 'R09.')
+R('C08', 'revert-D12-caller-released-before-terminal-message', "fix: post terminal consumer messages before releasing the channel's caller", 'R08.')
 R('C20', 'revert-D5-stale-ch0-wakeups', 'fix: ignore stale channel-0 wakeups after the connection left the Steady state', 'R20.')
 
 # ================================================================================================ benign edits
